@@ -6,6 +6,9 @@ import CedarVerif.Lemmas.NoPanicCollections
 import CedarVerif.Lemmas.NoPanicDispatch
 import CedarVerif.Lemmas.NoPanicPartialResponse
 import CedarVerif.Lemmas.NoPanicUnescape
+import CedarVerif.Lemmas.NoPanicRemoveEmptyLines
+import CedarVerif.Lemmas.NoPanicExtArgCheck
+import CedarVerif.Lemmas.NoPanicEstDisplay
 import CedarVerif.Thm.C08
 /-
 C20 — No panics on arbitrary input (mirrored components).
@@ -30,6 +33,16 @@ Mirrored sites and what is proved:
                                             no_panic_partial_response, partial_response_panics_iff, partial_response_panic_reachable
  (i) `Unescape::unescape` range arithmetic (rustc_literal_escaper 0.0.8), `to_pattern` `&bytes[range]`, `Display for
      UnescapeError` `&self.input[self.range]`                               unreachable, all inputs      no_panic_unescape_slices
+ (j) formatter `remove_empty_lines`: `find_at`, `&text[index..m.start()]`, `m.as_str()`, `&text[index..]`, loop termination
+     unreachable for all texts and ALL regex oracles satisfying the regex-crate contract (match at/after `index`, ordered,
+     ends on char boundaries); terminates (fuel `len+1`) if moreover no match is empty; both hypotheses are necessary
+                                                                     no_panic_remove_empty_lines, remove_empty_lines_terminates
+ (k) validator `typecheck_extension` (`let … else panic!`, `zip_longest` `last().unwrap()` / `unreachable!`) and the four
+     `validate_{ip,decimal,datetime,duration}_string` checks it calls whatever the argument count
+     unreachable for every argument count, given: a variadic function type has ≥ 1 argument type; the `exprs[0]` form of
+     the checks panics exactly on `[]`                no_panic_ext_argument_checks, no_panic_typecheck_extension, ext_argument_check_index_panics_iff
+ (l) EST `display_cedarvaluejson`: `&args[0]`, `&args[1..]`, `v.len() - 1`, `r.len() - 1`   unreachable, all values (after /repo
+     commit f169b51; the control flow before it reaches `&args[0]` on `[]`)    no_panic_display_cedarvaluejson, display_cedarvaluejson_prefix_panics
  (h) `ast::PolicySet` `panic!` sites of `unlink`/`remove_template`, `unwrap` in `merge_policyset`: proved in C08, cited here
                                                                      no_panic_policyset_op, no_panic_policyset_history, no_panic_policyset_merge
 -/
@@ -479,6 +492,170 @@ example :
     (isAuthorizedCore [] preq ⟨[], false⟩ [p1, p2]).residualPermits.length = 1 := by
   intro preq p1 p2
   exact ⟨by decide +kernel, by decide +kernel⟩
+
+/-! ### (j) `remove_empty_lines` (cedar-policy-formatter/src/pprint/utils.rs)
+
+Mirror `Cedar/NoPanic/RemoveEmptyLines.lean` (`Rel.loop`, `Rel.removeEmptyLines`): the `while index < text.len()` loop with the two
+`find_at` searches as oracles, `min_by_key`, the slices `&text[index..m.start()]`, `m.as_str()`, `&text[index..]` and
+`index = m.end()`.  Hypothesis `Rel.Contract text f` (the regex-crate contract for `find_at` on a `&str`): for a search starting
+at a char boundary `i < len`, a returned match has `i ≤ start ≤ end`, and `start`, `end` are char boundaries of `text` (so
+`end ≤ len`).  Nothing else is assumed of the oracles — in particular not that they implement the two patterns. -/
+
+open Cedar.NoPanic Cedar.NoPanic.Rel in
+/-- under the contract no slice of the loop can be out of range, inverted or inside a char — from any boundary `index`, for any
+fuel — and `find_at` is never called past the end -/
+theorem no_panic_remove_empty_lines (text : List Char) (c s : FindAt) (hc : Contract text c) (hs : Contract text s) :
+    (∀ fuel index, isBoundary text index = true → ∀ site, loop text c s fuel index ≠ .panic site) ∧
+    (∀ site, removeEmptyLines text c s ≠ .panic site) := by
+  have key : ∀ fuel index, isBoundary text index = true → ∀ site, loop text c s fuel index ≠ .panic site := by
+    intro fuel index hb site
+    obtain ⟨pre, rest, ht, rfl⟩ := (isBoundary_iff text index).mp hb
+    rcases loop_ok text c s hc hs fuel pre rest ht with ⟨ps, h, _⟩ | ⟨h, _⟩ <;> rw [h] <;>
+      (intro h'; cases h')
+  exact ⟨key, fun site => key _ 0 (by simp [isBoundary, sliceFrom_zero]) site⟩
+
+open Cedar.NoPanic Cedar.NoPanic.Rel in
+/-- if moreover neither pattern matches the empty string (`//…` and `"…"` are at least two bytes), `index` strictly increases:
+the loop ends within `len + 1` iterations, and the slices pushed are a partition of the text (nothing lost, nothing repeated) -/
+theorem remove_empty_lines_terminates (text : List Char) (c s : FindAt) (hc : Contract text c) (hs : Contract text s)
+    (nc : NonEmptyMatches text c) (ns : NonEmptyMatches text s) :
+    ∃ ps, removeEmptyLines text c s = .done ps ∧ flat ps = text := by
+  rcases loop_ok text c s hc hs (bytes text + 1) [] text rfl with ⟨ps, h, hf⟩ | ⟨_, hf⟩
+  · exact ⟨ps, h, hf⟩
+  · have := hf nc ns; omega
+
+-- non-vacuity: executable oracles for the two patterns satisfy both hypotheses on a text with multi-byte chars in a string, in a
+-- comment and outside, a quote inside a comment, `//` inside a string, an unterminated string at the end; the loop runs 4 rounds
+open Cedar.NoPanic Cedar.NoPanic.Rel in
+example :
+    let text := "é \"a//é\\\"\" // it's \"q\n\n😀 \"x\" \"unterminated".toList
+    checkContract text (commentOracle text) = true ∧ checkContract text (stringOracle text) = true ∧
+    checkNonEmpty text (commentOracle text) = true ∧ checkNonEmpty text (stringOracle text) = true ∧
+    removeEmptyLines text (commentOracle text) (stringOracle text) =
+      .done [.outside "é ".toList, .verbatim "\"a//é\\\"\"".toList, .outside " ".toList, .verbatim "// it's \"q".toList,
+             .outside "\n\n😀 ".toList, .verbatim "\"x\"".toList, .outside " \"unterminated".toList] := by
+  decide +kernel
+-- the contract is what protects the slices: a match ending inside `é`, one before `index`, an inverted one reach the sites
+open Cedar.NoPanic Cedar.NoPanic.Rel in
+example : removeEmptyLines "aé".toList (fun _ => some ⟨1, 2⟩) (fun _ => none) = .panic "m.as_str()" := by decide +kernel
+open Cedar.NoPanic Cedar.NoPanic.Rel in
+example : loop "abc".toList (fun _ => some ⟨0, 1⟩) (fun _ => none) 5 2 = .panic "&text[index..m.start()]" := by decide +kernel
+open Cedar.NoPanic Cedar.NoPanic.Rel in
+example : removeEmptyLines "abc".toList (fun _ => some ⟨2, 1⟩) (fun _ => none) = .panic "m.as_str()" := by decide +kernel
+open Cedar.NoPanic Cedar.NoPanic.Rel in
+example : removeEmptyLines "abc".toList (fun _ => some ⟨1, 9⟩) (fun _ => none) = .panic "m.as_str()" := by decide +kernel
+-- and an oracle allowed to match the empty string satisfies the contract but never advances: the Rust loop would hang
+open Cedar.NoPanic Cedar.NoPanic.Rel in
+example : checkContract "abc".toList (fun i => some ⟨i, i⟩) = true ∧
+    removeEmptyLines "abc".toList (fun i => some ⟨i, i⟩) (fun _ => none) = .fuel := by decide +kernel
+
+/-! ### (k) extension calls in the typechecker (cedar-policy-core/src/validator/typecheck.rs `typecheck_extension`,
+validator/extension_schema.rs `check_arguments`, validator/extensions/{ipaddr,decimal,datetime}.rs `validate_*_string`)
+
+Mirror `Cedar/NoPanic/ExtArgCheck.lean`.  The caller only RECORDS `wrong_number_args` (sets `failed`) and calls the argument check
+anyway, so the check sees every argument count. -/
+
+open Cedar.NoPanic.ExtArg in
+/-- the four `validate_*_string` checks (`exprs.iter().exactly_one()`): no panic for any number and kind of arguments, whatever the
+extension constructor answers -/
+theorem no_panic_ext_argument_checks (ctor : List Char → Bool) (exprs : List Arg) :
+    ∀ site, validateCtorString .exactlyOne ctor exprs ≠ .panic site :=
+  validateCtorString_exactlyOne_safe ctor exprs
+
+open Cedar.NoPanic.ExtArg in
+/-- with `exprs[0]` instead (what their doc comment "we already checked that `exprs` contains correct number of arguments"
+would license) they panic exactly on the empty argument list — which the caller does pass on -/
+theorem ext_argument_check_index_panics_iff (ctor : List Char → Bool) (exprs : List Arg) :
+    (∃ site, validateCtorString .index0 ctor exprs = .panic site) ↔ exprs = [] :=
+  validateCtorString_index0_panics_iff ctor exprs
+
+open Cedar.NoPanic.ExtArg in
+/-- the whole arm of `Typechecker::typecheck`: for every expression kind, mode, known or unknown function and argument list
+neither the `let … else { panic! }`, nor the argument check, nor `Left => arg_tys.last().unwrap()`, nor `Right => unreachable!` is
+reached.  Invariant used (comment at the `unwrap`: "by construction variadic functions have at least 2 argument types",
+`ast::ExtensionFunction::variadic`): a variadic function type has at least one argument type -/
+theorem no_panic_typecheck_extension (strict : Bool) (k : Kind)
+    (hinv : ∀ ft args, k = .extensionFunctionApp (some ft) args → ft.variadic = true → 0 < ft.nArgTys) :
+    ∀ o, typecheckArm .exactlyOne strict k = some o → ∀ site, o ≠ .panic site := by
+  intro o ho site
+  cases k with
+  | other => cases ho
+  | extensionFunctionApp lookup args =>
+    simp only [typecheckArm, typecheckExtension, Option.some.injEq] at ho
+    subst ho
+    exact typecheckExtensionFn_safe strict lookup (fun ft h hv => hinv ft args (by rw [h]) hv) args site
+
+-- non-vacuity: zero arguments to `ip` — the error is recorded, the check is still called and answers `Ok`; with `exprs[0]` it panics
+open Cedar.NoPanic.ExtArg in
+example : typecheckExtensionFn .exactlyOne true (some ⟨1, false, some fun _ => false⟩) [] = .fail [.wrongNumberArgs 1 0] := by
+  decide +kernel
+open Cedar.NoPanic.ExtArg in
+example : typecheckExtensionFn .index0 true (some ⟨1, false, some fun _ => false⟩) [] = .panic "exprs[0]" := by decide +kernel
+-- two arguments, one argument that does not parse, a non-literal in strict mode, a good call; variadic with extra arguments
+open Cedar.NoPanic.ExtArg in
+example : typecheckExtensionFn .exactlyOne true (some ⟨1, false, some fun _ => false⟩) [.strLit ['x'], .strLit ['y']] =
+    .fail [.wrongNumberArgs 1 2] := by decide +kernel
+open Cedar.NoPanic.ExtArg in
+example : typecheckExtensionFn .exactlyOne true (some ⟨1, false, some fun _ => false⟩) [.strLit ['x']] =
+    .fail [.functionArgumentValidation ['x']] := by decide +kernel
+open Cedar.NoPanic.ExtArg in
+example : typecheckExtensionFn .exactlyOne true (some ⟨1, false, some fun _ => true⟩) [.nonLit] = .fail [.nonLitExtConstructor] := by
+  decide +kernel
+open Cedar.NoPanic.ExtArg in
+example : typecheckExtensionFn .exactlyOne true (some ⟨1, false, some fun _ => true⟩) [.strLit ['x']] = .checked 1 := by
+  decide +kernel
+open Cedar.NoPanic.ExtArg in
+example : typecheckExtensionFn .exactlyOne false (some ⟨2, true, none⟩) [.nonLit, .nonLit, .nonLit, .nonLit] = .checked 4 := by
+  decide +kernel
+-- the invariant is needed (`ExtensionFunctionType::new` is public and does not check it), and the `let … else` is a real site
+open Cedar.NoPanic.ExtArg in
+example : typecheckExtensionFn .exactlyOne false (some ⟨0, true, none⟩) [.nonLit] =
+    .panic "Left(arg) => (arg, arg_tys.last().unwrap())" := by decide +kernel
+open Cedar.NoPanic.ExtArg in
+example : ∃ site, typecheckExtension .exactlyOne false .other = .panic site := ⟨_, rfl⟩
+open Cedar.NoPanic.ExtArg in
+example : ∃ site, zipLongest true [] 1 = .error site := ⟨_, rfl⟩
+
+/-! ### (l) `display_cedarvaluejson` (cedar-policy-core/src/est/expr.rs)
+
+Mirror `Cedar/NoPanic/EstDisplay.lean` (`EstDisp.display fixed style n v`; `fixed = true` is the code after /repo commit f169b51,
+`fixed = false` the control flow before it). -/
+
+open Cedar.NoPanic.EstDisp in
+/-- no JSON value — any nesting of extension escapes with any number of arguments, sets, records, any truncation bound, any call
+style table — reaches `&args[0]`, `&args[1..]` or the `len() - 1` underflows -/
+theorem no_panic_display_cedarvaluejson (style : String → Option Bool) (n : Option Nat) (v : CVJ) :
+    ∀ site, display true style n v ≠ .panic site :=
+  (Out.not_isPanic_iff _).mp (display_safe style n v)
+
+open Cedar.NoPanic.EstDisp in
+/-- before the fix: a method-style function applied to no argument (`{"__extn": {"fn": "isIpv4", "args": []}}`, accepted by
+`from_json`) indexes `args[0]` -/
+theorem display_cedarvaluejson_prefix_panics (style : String → Option Bool) (n : Option Nat) (fn : String)
+    (h : style fn = some true) : display false style n (.extnMulti fn []) = .panic "&args[0]" :=
+  display_prefix_panics style n fn h
+
+-- non-vacuity: the zero-argument method call prints in function style after the fix and panics before it (also when nested);
+-- receiver/argument split with 1, 2, 3 arguments; empty and truncated collections
+open Cedar.NoPanic.EstDisp in
+example : display true stdStyle none (.extnMulti "isIpv4" []) = .text "isIpv4()" := by decide +kernel
+open Cedar.NoPanic.EstDisp in
+example : display false stdStyle none (.extnMulti "isIpv4" []) = .panic "&args[0]" := by decide +kernel
+open Cedar.NoPanic.EstDisp in
+example : display false stdStyle (some 1) (.set [.record [("k", .extnMulti "isInRange" [])]]) = .panic "&args[0]" := by
+  decide +kernel
+open Cedar.NoPanic.EstDisp in
+example : display true stdStyle none (.extnMulti "isIpv4" [.atom "a"]) = .text "a.isIpv4()" := by decide +kernel
+open Cedar.NoPanic.EstDisp in
+example : display true stdStyle none (.extnMulti "isInRange" [.atom "a", .extnSingle "ip" (.atom "\"::1\"")]) =
+    .text "a.isInRange(ip(\"::1\"))" := by decide +kernel
+open Cedar.NoPanic.EstDisp in
+example : display true stdStyle none (.extnMulti "f" [.atom "a", .atom "b", .atom "c"]) = .text "f(a, b, c)" := by decide +kernel
+open Cedar.NoPanic.EstDisp in
+example : display true stdStyle (some 1) (.set [.atom "1", .set [], .record []]) = .text "[1, ..]" := by decide +kernel
+open Cedar.NoPanic.EstDisp in
+example : display true stdStyle (some 3) (.set [.atom "1", .set [], .record [("k", .atom "2")]]) =
+    .text "[1, [], {\"k\": 2}]" := by decide +kernel
 
 /-! ### (h) `ast::PolicySet` (cedar-policy-core/src/ast/policy_set.rs) — proved in C08, cited here
 
